@@ -369,4 +369,14 @@ def _fn_of(asm, line):
     for first, last, label in asm.fn_spans:
         if first <= line <= last:
             best = label
-    return best or "<template>"
+    if best:
+        return best
+    # a function written in the template itself (lemma, exec round trip): name it after the nearest `fn NAME` above the line
+    pairs = getattr(asm, "out", None).pairs if getattr(asm, "out", None) is not None else []
+    k = min(line, len(pairs)) - 1
+    while k >= 0:
+        mm = re.search(r"\bfn\s+([A-Za-z_][A-Za-z0-9_]*)", pairs[k][0])
+        if mm and not pairs[k][0].lstrip().startswith("//"):
+            return "<template> :: fn " + mm.group(1)
+        k -= 1
+    return "<template>"
